@@ -118,7 +118,12 @@ func runOne(t *testing.T, p Property, tp *Tape, opt RunOpt) (out *RunOut) {
 			}
 		}()
 		synctest.Test(t, func(t *testing.T) {
+			t0 := time.Now() // the bubble's fake clock
 			out = p.Run(tp, opt)
+			// properties that do not use the scheduler (C03, C18) still spend simulated time in budget-timeout faults
+			if el := time.Since(t0); out != nil && el > out.SimTime {
+				out.SimTime = el
+			}
 		})
 	}()
 	<-done
